@@ -23,21 +23,24 @@ ASSUMPTIONS = [
     ">= difficulty adjustment interval = 2016); the BTC tree shares BaseBlockTree::finalizeBlockImpl with ALT/VBK",
 ]
 META = {
-    "text": "Theorems (Coq, model of finalizeBlocks/finalizeBlockImpl/isBlockOutdated over a block tree, all trees and "
-            "all op histories): isBlockOutdated(final, c) holds exactly when c does not descend from final; a finalized "
-            "block stays on the active chain under every later operation that respects assertBlockCanBeUnapplied "
-            "(final_monotone); comparePopScore's TIP_IS_FINAL short-cuts refuse every candidate forking below the final "
-            "block (cmp_refuses_below_final); finalization retains the active chain from the new root, the preserved "
-            "window and every payload id of a finalized block in the finalized payload index (retained); "
-            "finalize_transparent_partial: candidates that are not outdated see the same ancestry, validity and "
-            "duplicate-detection answers before and after finalization (the gap to the full statement — POP command "
-            "execution needing keystones/SP context below the new root — is named in the file and witnessed by a "
-            "concrete history on the real library). Direct oracle on the rebuilt library: twin instances on long "
-            "histories, F saving and finalizing after every step (plain instance + public finalizeBlocks(), and loaded "
-            "instance with automatic finalization, also with lazy saves), N never finalizing: equal answers of "
-            "acceptBlockHeader/acceptBlock/setState/comparePopScore/getPopPayout for every candidate descending from "
-            "F's final block, refusal of every candidate forking below it, monotone final block, equal state of the "
-            "retained part of all three trees.",
+    "text": "Theorems (Coq, model coq/Store/FinalizeDefs.v of isBlockOutdated, finalizeBlocks, finalizeBlockImpl incl. "
+            "fix 057feaed, the TIP_IS_FINAL short-cuts and setState with assertBlockCanBeUnapplied; all trees, all op "
+            "histories): C09_final_monotone - a finalized block of the active chain stays on it and final under every "
+            "history of tip switches, finalizations, block additions and saves that does not abort, or has been "
+            "deallocated behind the root; C09_setState_keeps_final; C09_cmp_refuses_below_final - a candidate whose "
+            "fork point lies below a finalized block is refused before any payload is touched; C09_retained - the "
+            "finalized payload index never loses an entry and receives the payload ids of every active-chain block "
+            "deallocated before it was marked; C09_outdated_cases; C09_finalize_transparent_partial - every block "
+            "that descends from the new root and is not under a sibling of the final block survives with the same "
+            "height, payload ids, dirty bit and parent. PARTIAL: POP command execution (keystone context, SP context) "
+            "is outside the model, and on the real library transparency does NOT follow from the asserted relation "
+            "preserve >= settlement alone (known finding ctx-keystone-dealloc). Direct oracle on the rebuilt library: "
+            "twin instances on long histories, F saving and finalizing after every step (plain instance + public "
+            "finalizeBlocks(), and loaded instance with automatic finalization, also with lazy saves), N never "
+            "finalizing: equal answers of acceptBlockHeader/acceptBlock/setState/comparePopScore/getPopPayout for "
+            "every candidate descending from F's final block, refusal of every candidate forking below it, monotone "
+            "final block, equal state of the retained part of all three trees; finalizeBlocks of the extracted model "
+            "is compared with AltBlockTree::finalizeBlocks on every second finalization of the fin-mode histories.",
     "note": "Known finding ctx-keystone-dealloc (preserve == settlement deallocates keystones needed by "
             "CheckPublicationData): reproduced by a corpus witness on every run (KNOWN-FINDING), excluded from the "
             "generated histories by alt_preserve >= settle + 2*ki + 2. "
